@@ -914,3 +914,31 @@ def new_address_reported_only_when_stored(ctx, P, pre):
            "every `new address` report is accompanied by storing the address" if not bad else
            "add_interface reports the address as new (%s) on a path that does not store it: every later IP check finds it new again and sends "
            "another query for every open browse" % bad[:1])
+
+
+def stop_forgets_every_listed_instance(ctx, P, pre):
+    """remove_service_type forgets the SRV/TXT/... of EVERY instance the stopped type's PTR records list: the only edge that may
+    skip an instance is a PTR record that is not a DnsPointer.  The cache cannot know which other types are being browsed
+    (it also holds PTRs nobody asked for), so 'another PTR still lists it' is no reason to keep the records"""
+    f = P.one("DnsCache::remove_service_type")
+    rem = [b for b, t in f.calls() if "HashMap" in cname(t) and method(cname(t)) == "remove" and recv_mentions(P, f, b, t, "srv", "DnsCache")]
+    ctx.require(len(rem) >= 1, pre + ".anchor", f.name + "|srv.remove", f.loc(), "%d call(s)" % len(rem))
+    if not rem:
+        return
+    loops = f.loops()
+    heads = [h for h, body in loops.items() if rem[0] in body]
+    if not heads:
+        ctx.ob(pre + ".stop-forgets-every-listed-instance", f.name, True, f.loc(rem[0]), "no loop around the removal (adaptor form)")
+        return
+    h = min(heads, key=lambda x: len(loops[x]))
+    allowed = guard_edges(P, f, lambda atom, outcome, bb: atom[0] == "variant" and outcome == frozenset(["None"]) and
+                          any(x[0] == "call" and "downcast_ref" in x[1] for x in walk(atom[1])))
+    reach = f.reachable(h, removed_blocks=rem, removed_edges=allowed)
+    backs = [b for b in f.preds(h) if b in loops[h] and f.dominates(h, b)]
+    exits_ok = True
+    bad = [b for b in backs if b in reach and any(s_ != h and s_ in loops[h] for s_ in f.succs(h))]
+    # the loop's own exhaustion edge (next() == None) also reaches a back-edge-free exit; only cycles count
+    ctx.ob(pre + ".stop-forgets-every-listed-instance", f.name, not bad, f.loc(rem[0]),
+           "every instance listed by the stopped type loses its SRV entry" if not bad else
+           "an instance listed by the stopped type can be skipped (a `continue` before srv.remove): its SRV/TXT/address records stay cached with "
+           "no search open and are refreshed by unsolicited traffic for ever")
